@@ -76,9 +76,10 @@ Definition begin_new_stream (sid allowed : Z) : CM unit :=
   if g_begin_low sid (highest_for c sid) then fail StreamIDTooLowError (exn_code StreamIDTooLowError) sid false
   else if g_begin_parity sid allowed then lift_res perr
   else
-    let s := stream_new sid (s_initial_window_size (c_local c)) (s_initial_window_size (c_remote c)) (c_max_out_frame c) in
-    let c1 := cset_streams c (dset sid s (c_streams c)) in
-    put (if is_outbound c sid then cset_hi_out c1 sid else cset_hi_in c1 sid).
+    modify (fun c =>
+      let s := stream_new sid (s_initial_window_size (c_local c)) (s_initial_window_size (c_remote c)) (c_max_out_frame c) in
+      let c1 := cset_streams c (dset sid s (c_streams c)) in
+      if is_outbound c sid then cset_hi_out c1 sid else cset_hi_in c1 sid).
 
 Definition get_or_create_stream (sid allowed : Z) : CM unit :=
   c <- get ;; if dmem sid (c_streams c) then ret tt else begin_new_stream sid allowed.
@@ -449,7 +450,7 @@ Definition recv_window_update (sid inc : Z) : CM (list frame * list event) :=
   else
     c <- get ;;
     w <- lift_res (guard_increment_window (c_out_win c) inc) ;;
-    put (cset_out_win c w) ;;;
+    modify (fun c => cset_out_win c w) ;;;
     ret ([], [EWindowUpdated 0 inc]).
 
 Definition recv_ping (ack : bool) (payload : bytes) : CM (list frame * list event) :=
